@@ -15,10 +15,10 @@ LEVEL_TEXT = ('every state of $topdir/.Trash (sticky dir, non-sticky dir, symlin
               'a populated .Trash/$uid is presented to each of the five commands; insecure => the subtree is byte-identical afterwards and '
               'none of its entries is listed, offered, restored or purged; secure control => it IS used (no vacuous pass)')
 LEVEL_NOTE = 'trusted: shim mount table / psutil substitute; ownership checks of .Trash/$uid itself are not part of the property'
-RULE = ('.Trash state (8, incl. mode 2777 and 0700) x command (put, list, restore+reply, empty, empty 0, rm *, rm exact, list --all-users and empty --all-users with three accounts in /etc/passwd) x volumes (v1 only; v1 insecure + v2 secure) x uid '
+RULE = ('.Trash state (8, incl. mode 2777 and 0700) x command (put, list, restore+reply, empty, empty 0, rm *, rm exact, list --all-users and empty --all-users with three accounts in /etc/passwd, list --size, list --files, put with .Trash-uid blocked by a regular file) x volumes (v1 only; v1 insecure + v2 secure) x uid '
         '(0, 1000); non-trivial = the command examined the volume (stat of .Trash seen in the trace); distinct = outcome class x state x command')
 STATES = ['sticky', 'nonsticky', 'nonsticky-setgid', 'nonsticky-private', 'symlink-sticky', 'symlink-nonsticky', 'file', 'absent']
-CMDS = ['put', 'list', 'restore', 'empty', 'empty0', 'rm-star', 'rm-exact', 'put-then-insecure', 'list-all-users', 'empty-all-users']
+CMDS = ['put', 'list', 'restore', 'empty', 'empty0', 'rm-star', 'rm-exact', 'put-then-insecure', 'list-all-users', 'empty-all-users', 'list-size', 'list-files', 'put-alt-blocked']
 VOLS = ['v1', 'v1+v2', 'v1-sticky-topdir']
 
 
@@ -49,7 +49,10 @@ def run_case(c):
     if c['vols'] == 'v1-sticky-topdir':
         W.dir('/mnt/v1', mode=0o1777)        # the volume's top directory itself is sticky (like /tmp): irrelevant for the .Trash checks
     alt = '/mnt/v1/.Trash-%d' % uid
-    scen.add_trashed(W, alt, 'myalt', 'w/myalt-x1', '2020-01-03T00:00:00')      # the user's own .Trash-$uid is always usable
+    if c['cmd'] == 'put-alt-blocked':
+        W.file(alt, 'a regular file where .Trash-$uid would be\n')               # no usable directory is left on the volume: the put has to FAIL
+    else:
+        scen.add_trashed(W, alt, 'myalt', 'w/myalt-x1', '2020-01-03T00:00:00')      # the user's own .Trash-$uid is always usable
     st = c['st']
     phys = None
     if st == 'sticky':
@@ -78,6 +81,8 @@ def run_case(c):
                    'restore': (['trash-restore', '/'], '0\n'), 'empty': (['trash-empty'], None),
                    'empty0': (['trash-empty', '0'], None), 'rm-star': (['trash-rm', '*'], None),
                    'rm-exact': (['trash-rm', '/mnt/v1/w/one-v1'], None), 'put-then-insecure': (None, None),
+                   'list-size': (['trash-list', '--size'], None), 'list-files': (['trash-list', '--files'], None),
+                   'put-alt-blocked': (['trash-put', 'new'], None),
                    'list-all-users': (['trash-list', '--all-users'], None), 'empty-all-users': (['trash-empty', '--all-users'], None)}[cmd]
     if cmd == 'put-then-insecure':
         return run_put_then_insecure(c, W, uid, td)
@@ -90,7 +95,7 @@ def run_case(c):
     if cmd == 'restore' and ('myalt-x1' not in r.out or (c['vols'] == 'v1+v2' and 'one-v2' not in r.out)):
         return {'verdict': 'viol', 'sig': 'C08|restore-does-not-offer-entries-of-usable-trash-dirs|st=%s' % st, 'klass': 'usable-not-offered',
                 'detail': {'out': r.out[-400:], 'err': r.err[-300:]}}
-    if cmd in ('list', 'list-all-users') and 'myalt-x1' not in r.out:
+    if cmd in ('list', 'list-all-users', 'list-size', 'list-files') and 'myalt-x1' not in r.out:
         return {'verdict': 'viol', 'sig': 'C08|own-Trash-uid-not-listed|st=%s' % st, 'klass': 'alt-not-listed', 'detail': {'out': r.out[-300:], 'err': r.err[-300:]}}
     if cmd in ('empty', 'rm-star', 'empty-all-users') and world.under(after, alt + '/files/myalt'):
         return {'verdict': 'viol', 'sig': 'C08|own-Trash-uid-not-purged|cmd=%s|st=%s' % (cmd, st), 'klass': 'alt-not-purged', 'detail': {'err': r.err[-300:]}}
@@ -111,14 +116,19 @@ def run_case(c):
             changed = sorted(k for k in set(sub_b) | set(sub_a) if sub_b.get(k) != sub_a.get(k))
             return {'verdict': 'viol', 'sig': 'C08|insecure-top-modified|cmd=%s|st=%s' % (cmd, 'symlink' if 'symlink' in st else st),
                     'klass': 'insecure-modified', 'nontrivial': 'mod|' + dims, 'detail': dict(detail, changed=changed[:8])}
-        if mentions and cmd in ('list', 'restore', 'list-all-users'):
+        if mentions and cmd in ('list', 'restore', 'list-all-users', 'list-size', 'list-files'):
             return {'verdict': 'viol', 'sig': 'C08|insecure-top-shown|cmd=%s|st=%s' % (cmd, 'symlink' if 'symlink' in st else st),
                     'klass': 'insecure-shown', 'nontrivial': 'shown|' + dims, 'detail': detail}
         if cmd == 'put':
             if not world.under(after, '/mnt/v1/.Trash-%d/files/new' % uid) or r.exit != 0:
                 return {'verdict': 'viol', 'sig': 'C08|put-did-not-fall-through|st=%s' % st, 'klass': 'no-fallthrough',
                         'nontrivial': 'nofall|' + dims, 'detail': detail}
-        if cmd == 'list' and st in ('nonsticky', 'nonsticky-private', 'nonsticky-setgid', 'symlink-sticky', 'symlink-nonsticky') and '/mnt/v1/.Trash' not in r.err:
+        if cmd == 'put-alt-blocked':
+            if r.exit == 0 or not world.under(after, '/mnt/v1/w/new'):
+                return {'verdict': 'viol', 'sig': 'C08|put-succeeded-although-no-secure-directory-is-usable|st=%s' % st, 'klass': 'insecure-used-as-last-resort',
+                        'nontrivial': 'lastresort|' + dims, 'detail': detail}
+            return {'verdict': 'ok', 'klass': 'insecure:put-failed-cleanly', 'nontrivial': examined and ('failed|' + dims), 'detail': detail}
+        if cmd in ('list', 'list-size', 'list-files') and st in ('nonsticky', 'nonsticky-private', 'nonsticky-setgid', 'symlink-sticky', 'symlink-nonsticky') and '/mnt/v1/.Trash' not in r.err:
             return {'verdict': 'viol', 'sig': 'C08|list-silent-about-skipped-dir|st=%s' % st, 'klass': 'list-silent',
                     'nontrivial': 'silent|' + dims, 'detail': detail}
         if cmd == 'list-all-users' and st in ('nonsticky', 'nonsticky-private', 'nonsticky-setgid', 'symlink-sticky', 'symlink-nonsticky'):
@@ -126,11 +136,12 @@ def run_case(c):
             if silent:
                 return {'verdict': 'viol', 'sig': 'C08|list-silent-about-skipped-dir|all-users|st=%s' % st, 'klass': 'list-silent',
                         'nontrivial': 'silent|' + dims, 'detail': dict(detail, not_reported_for_uid=silent)}
-        if c['vols'] == 'v1+v2' and cmd == 'list' and not ('one-v2' in r.out and 'two-v2' in r.out):
+        if c['vols'] == 'v1+v2' and cmd in ('list', 'list-size', 'list-files') and not ('one-v2' in r.out and 'two-v2' in r.out):
             return {'verdict': 'viol', 'sig': 'C08|secure-volume-not-listed', 'klass': 'secure-not-listed', 'detail': detail}
         return {'verdict': 'ok', 'klass': 'insecure:ignored', 'nontrivial': examined and ('ignored|' + dims), 'detail': detail}
     # secure control group: the directory must be used
-    used = {'put': bool(world.under(after, td + '/files/new')), 'list': mentions, 'restore': mentions,
+    used = {'put': bool(world.under(after, td + '/files/new')), 'put-alt-blocked': bool(world.under(after, td + '/files/new')),
+            'list': mentions, 'list-size': mentions, 'list-files': mentions, 'restore': mentions,
             'empty': not world.under(after, td + '/files/one'), 'empty0': not world.under(after, td + '/files/one'),
             'rm-star': not world.under(after, td + '/files/one'), 'rm-exact': not world.under(after, td + '/files/one'),
             'list-all-users': 'one-v1b' in r.out and '/mnt/v1/w/one-v1\n' in r.out,
